@@ -107,7 +107,7 @@ def gen_utts(rng, style=None):
 
 
 def mk_case(rng, policy, valid, partial, retain, quiet, utts, opts=None, wt=None, lobe=None):
-    pad_mode = None if valid else rng.choice(["constant", "constant", "replicate"])
+    pad_mode = None if valid else rng.choice(["constant", "constant", "replicate", "reflect"])
     # None = flag not given (the command's default 0.0); integral values only: alignments are integer tensors
     pad_constant = rng.choice([None, PAD, 7.0]) if pad_mode == "constant" else None
     o = dict(DEFAULT_OPTS)
@@ -119,7 +119,10 @@ def mk_case(rng, policy, valid, partial, retain, quiet, utts, opts=None, wt=None
     return {"kind": "dir", "policy": policy, "wt": wt or rng.choice(WTS),
             "lobe": rng.randint(0, 3) if lobe is None else lobe, "valid": valid, "pad_mode": pad_mode,
             "pad_constant": pad_constant, "partial": partial, "retain": retain, "quiet": quiet, "opts": o,
-            "feat_dtype": rng.choice(["float32", "float32", "float64"]), "utts": utts}
+            "feat_dtype": rng.choice(["float32", "float32", "float64"]),
+            # options equal to their documented default (--policy fixed, --window-type symmetric, --lobe-size 0)
+            # are left off the command line
+            "omit_defaults": rng.random() < 0.6, "utts": utts}
 
 
 def gen_quick(rng, rounds=3):
@@ -142,6 +145,22 @@ def gen_quick(rng, rounds=3):
         for valid in (True, False):
             yield mk_case(rng, policy, valid, rng.random() < 0.5, rng.random() < 0.5, rng.random() < 0.5,
                           rng.choice(pool), dict(ALT_OPTS, has_ali=policy != "fixed", has_ref=policy != "fixed"))
+    # the command's documented defaults, left off the command line: all at once and one at a time
+    for policy in POLICIES:
+        for wt, lobe in (("symmetric", 0), ("symmetric", rng.randint(1, 3)), (rng.choice(WTS[1:]), 0)):
+            c = mk_case(rng, policy, rng.random() < 0.5, rng.random() < 0.5, rng.random() < 0.5, True,
+                        rng.choice(pool), wt=wt, lobe=lobe)
+            c["omit_defaults"] = True
+            yield c
+    # default names beyond their five-digit field and below zero: an utterance of 10**5 + a few frames cut at
+    # reference segments near its end (`{start:05d}` must widen, not truncate; `-0003` for a padded start)
+    for valid in (True, False):
+        T = 10 ** 5 + rng.randint(3, 9)
+        a = rng.randint(99990, 99998)
+        utt = {"id": rng.choice(["long", "long.1"]), "T": T, "ali": [],
+               "ref": [[tok_id(rng), 0, rng.randint(1, 3)], [tok_id(rng), a, 10 ** 5], [tok_id(rng), 10 ** 5, T]]}
+        yield mk_case(rng, "ref", valid, rng.random() < 0.5, rng.random() < 0.5, True, [utt],
+                      {"format": "default", "has_ali": False})
 
 
 def gen_cases(rng, n):
@@ -163,6 +182,7 @@ def norm(case):
     c.setdefault("pad_constant", None if c["valid"] else PAD)
     c.setdefault("quiet", True)
     c.setdefault("feat_dtype", "float32")
+    c.setdefault("omit_defaults", False)
     o = dict(DEFAULT_OPTS)
     o.update(c.get("opts") or {})
     c["opts"] = o
@@ -212,8 +232,11 @@ def validate(root, case):
 
 def command_args(case, src, out):
     o = case["opts"]
-    args = [src, out, "--policy", case["policy"], "--window-type", case["wt"], "--lobe-size", str(case["lobe"]),
-            "--num-workers", "0"]
+    args = [src, out, "--num-workers", "0"]
+    for flag, value, default in (("--policy", case["policy"], "fixed"), ("--window-type", case["wt"], "symmetric"),
+                                 ("--lobe-size", str(case["lobe"]), "0")):
+        if not (case["omit_defaults"] and value == default):
+            args += [flag, value]
     if FORMATS[o["format"]] is not None:
         args += ["--format-utt", FORMATS[o["format"]]]
     if case["pad_mode"] is not None:
@@ -241,7 +264,7 @@ def parse_name(case, name):
             uid, idx, start, end = core.rsplit(".", 3)
             return uid, int(idx), int(start), int(end)
         uid, start, end = core.rsplit(".", 2)
-        if len(start) != 5 or len(end) != 5:
+        if any(len(x) < 5 or x != format(int(x), "05d") for x in (start, end)):
             return None
         return uid, None, int(start), int(end)
     except ValueError:
@@ -271,7 +294,7 @@ def run_dir(case):
                 obs["bad_names"].append(name)
                 continue
             uid, idx, start, end = parsed
-            ent = {"idx": idx, "start": start, "end": end}
+            ent = {"idx": idx, "start": start, "end": end, "name": name}
             feat = torch.load(os.path.join(out, lay["feat"], name))
             ent["feat_shape"] = list(feat.shape)
             ent["feat"] = [[float(x) for x in row] for row in feat.tolist()]
@@ -313,10 +336,77 @@ def run_dir(case):
 
 
 def model_request(case):
+    case = norm(case)
+    lay = layout(case)
+    pad_value = 0.0 if case["pad_constant"] is None else case["pad_constant"]
     return {"op": "c10.dir", "case": {
         "policy": case["policy"], "wt": case["wt"], "lobe": case["lobe"], "valid": case["valid"],
         "partial": case["partial"], "retain": case["retain"],
-        "utts": [{"T": u["T"], "ali": u["ali"], "ref": u["ref"]} for u in case["utts"]]}}
+        # the command line as the model of the whole worker (`dirWorker`) takes it
+        "pad_mode": case["pad_mode"], "pad_constant_ali": int(pad_value), "format": case["opts"]["format"],
+        "prefix": lay["prefix"], "suffix": lay["suffix"], "has_ali": case["opts"]["has_ali"],
+        "has_ref": case["opts"]["has_ref"],
+        "utts": [{"id": u["id"], "T": u["T"], "ali": u["ali"], "ref": u["ref"]} for u in case["utts"]]}}
+
+
+def frame_ids(case, ui, rows):
+    """Feature rows -> indices of the source frames they show (-1: the pad constant, None: neither)."""
+    pad_value = 0.0 if case["pad_constant"] is None else case["pad_constant"]
+    T = case["utts"][ui]["T"]
+    out = []
+    for row in rows:
+        t = round((row[0] - feat_value(ui, 0, 0)) / 10) if row else None
+        if t is not None and 0 <= t < T and row == [feat_value(ui, t, f) for f in range(F)]:
+            out.append(t)
+        elif row == [pad_value] * F:
+            out.append(-1)
+        else:
+            out.append(None)
+    return out
+
+
+def expected_error(model):
+    """The error class the model of the worker predicts for the run (first utterance that fails), or None."""
+    for m in model["utts"]:
+        mf = m.get("model_files")
+        if isinstance(mf, str) and mf.startswith("error:"):
+            return mf[len("error:"):]
+    return None
+
+
+def compare_files(case, impl, model):
+    """Everything written against the model of the whole worker: names, frames, alignments, tokens."""
+    out = []
+    lay = layout(case)
+    want_names = set()
+    for ui, (u, m) in enumerate(zip(case["utts"], model["utts"])):
+        mf = m.get("model_files")
+        if not isinstance(mf, list):
+            continue
+        held = {}
+        for f in mf:          # a later write replaces an earlier one of the same name
+            held[f["base"]] = f
+        want_names |= set(held)
+        by_name = {e["name"]: e for e in impl["utts"].get(u["id"], [])}
+        for name, f in held.items():
+            e = by_name.get(name)
+            if e is None:
+                if name not in (impl["listing"]["feat"] or []):
+                    out.append(f"utterance {u['id']}: the model of the worker writes '{name}', the command did not")
+                continue
+            got = frame_ids(case, ui, e["feat"])
+            if got != f["feat"]:
+                out.append(f"file {name}: frames {got} (index of the source frame, -1 = pad constant), model {f['feat']}")
+            if case["opts"]["has_ali"] and e.get("ali") != f["ali"]:
+                out.append(f"file {name}: alignment {e.get('ali')}, model {f['ali']}")
+            if case["opts"]["has_ref"] and e.get("ref") != f["ref"]:
+                out.append(f"file {name}: tokens {e.get('ref')}, model {f['ref']}")
+    if all(isinstance(m.get("model_files"), list) for m in model["utts"]):
+        got_names = set(impl["listing"]["feat"] or [])
+        if got_names != want_names:
+            out.append(f"files written {sorted(got_names - want_names)[:4]} not in the model / model files "
+                       f"{sorted(want_names - got_names)[:4]} not written")
+    return out[:4]
 
 
 # ----------------------------------------------------------------------------- comparison / property
@@ -336,9 +426,15 @@ def windows_want(case, ws):
 
 def compare(case, impl, model):
     case = norm(case)
+    want_err = expected_error(model)
     if "error" in impl:
-        return [f"command raised {impl['error']}: {impl.get('message')}"]
-    out = []
+        if want_err is not None and impl["error"] == want_err:
+            return []
+        return [f"command raised {impl['error']}: {impl.get('message')}; model of the worker: "
+                f"{'no error' if want_err is None else want_err}"]
+    if want_err is not None:
+        return [f"command succeeded, the model of the worker raises {want_err}"]
+    out = compare_files(case, impl, model)
     for u, m in zip(case["utts"], model["utts"]):
         got = [list(w) for w in windows_of(case, impl["utts"].get(u["id"], []))]
         want = [list(w) for w in windows_want(case, m["model"])] if isinstance(m["model"], list) else m["model"]
@@ -372,13 +468,26 @@ def pad_frame(case, t, T):
         return t
     if case["pad_mode"] == "replicate":
         return min(max(t, 0), T - 1)
+    if case["pad_mode"] == "reflect":       # only asked for |padding| < T
+        return -t if t < 0 else 2 * (T - 1) - t
     return None
+
+
+def outside_chunker_domain(case, model):
+    """Reflect padding is documented for paddings shorter than the sequence only: does some prescribed window
+    of the run need more? (`spec_files` holds `null` for such a window.)"""
+    return case["pad_mode"] == "reflect" and any(
+        f is None for m in model["utts"] for f in (m.get("spec_files") or []))
 
 
 def predicate(case, impl, model, sig_plus):
     case = norm(case)
     if "error" in impl:
+        if impl["error"] == "NotImplementedError" and outside_chunker_domain(case, model):
+            return []
         return [(f"chunk-torch-spect-data-dir raised {impl['error']}: {impl.get('message')}", None)]
+    if outside_chunker_domain(case, model):
+        return [("reflect padding at least as long as the utterance was accepted", None)]
     fails = []
     o = case["opts"]
     lay = layout(case)
@@ -420,13 +529,31 @@ def predicate(case, impl, model, sig_plus):
                 by_win.setdefault((w[0], w[1]), toks)
             pairs = [(e, by_win[(e["start"], e["end"])]) for e in ents]
         T = u["T"]
+        # names, frames and alignments against the Lean specification (`baseName`, C09's `chunkSeq`)
+        sf = m.get("spec_files")
+        if isinstance(sf, list):
+            by_name = {e["name"]: e for e in ents}
+            for f in sf:
+                e = by_name.get(f["base"])
+                if e is None:
+                    fails.append((f"utterance {u['id']}: no file named '{f['base']}' (names written: "
+                                  f"{sorted(by_name)[:4]})", None))
+                    continue
+                if frame_ids(case, ui, e["feat"]) != f["feat"]:
+                    fails.append((f"file {f['base']}: frames {frame_ids(case, ui, e['feat'])} are not the source "
+                                  f"restricted to the window with the requested padding {f['feat']}", None))
+                if o["has_ali"] and e.get("ali") != f["ali"]:
+                    fails.append((f"file {f['base']}: alignment {e.get('ali')}, specified {f['ali']}", None))
         for e, want_toks in pairs:
             a, b = e["start"], e["end"]
             src_t = [pad_frame(case, t, T) for t in range(a, b)]
             want_feat = [[feat_value(ui, t, f) if t is not None else pad_value for f in range(F)] for t in src_t]
-            if e["feat"] != want_feat or e["feat_dtype"] != "torch." + case["feat_dtype"]:
+            if e["feat"] != want_feat:
                 fails.append((f"utterance {u['id']} window [{a},{b}): features are not the source restricted to the "
                               f"window: {e['feat']}", None))
+            elif e["feat_dtype"] != "torch." + case["feat_dtype"]:
+                fails.append((f"utterance {u['id']} window [{a},{b}): features stored as {e['feat_dtype']}, the source "
+                              f"holds {case['feat_dtype']}", None))
             if o["has_ali"]:
                 want_ali = [u["ali"][t] if t is not None else int(pad_value) for t in src_t]
                 if e.get("ali") != want_ali or e.get("ali_dtype") != "torch.int64":
@@ -479,13 +606,25 @@ def tags(case, impl):
         if v != DEFAULT_OPTS[k]:
             t.append(f"dir:opt:{k}={v}")
     t.append(f"dir:feat_dtype={case['feat_dtype']}")
+    if case["omit_defaults"]:
+        for k, v, d in (("policy", case["policy"], "fixed"), ("window-type", case["wt"], "symmetric"),
+                        ("lobe-size", case["lobe"], 0)):
+            if v == d:
+                t.append(f"dir:default_omitted:--{k}")
     if o["has_ref"] and any(tk[0] < 0 and tk[1] >= 0 and tk[2] >= 0 for u in case["utts"] for tk in u["ref"]):
         t.append(f"dir:{case['policy']}:token_id<0:segment_known")
     if o["has_ref"] and any(abs(tk[0]) >= 2 ** 31 for u in case["utts"] for tk in u["ref"]):
         t.append("dir:token_id:beyond_int32")
     if o["has_ali"] and any(a < 0 for u in case["utts"] for a in u["ali"]):
         t.append(f"dir:{case['policy']}:ali_label<0")
+    if isinstance(impl, dict) and "error" in impl:
+        t.append(f"dir:pad_mode={case['pad_mode']}:raised:{impl['error']}")
     if isinstance(impl, dict) and "utts" in impl:
+        if any(len(format(abs(e[k]), "d")) > (5 if e[k] >= 0 else 4) for es in impl["utts"].values() for e in es
+               for k in ("start", "end")) and o["format"] == "default":
+            t.append("dir:default_name:number_wider_than_field")
+        if any(e["start"] < 0 for es in impl["utts"].values() for e in es) and o["format"] == "default":
+            t.append("dir:default_name:negative_start")
         straddle = nonzero_start = False
         for u in case["utts"]:
             for e in impl["utts"].get(u["id"], []):
@@ -520,6 +659,8 @@ def shrink(case):
             yield dict(case, opts=dict(case["opts"], **{k: DEFAULT_OPTS[k]}))
     if case["feat_dtype"] != "float32":
         yield dict(case, feat_dtype="float32")
+    if case["omit_defaults"]:
+        yield dict(case, omit_defaults=False)
     if case["pad_mode"] == "replicate":
         yield dict(case, pad_mode="constant", pad_constant=PAD)
     if case["lobe"] > 0:
